@@ -435,6 +435,8 @@ impl<'data> MergedStringsSection<'data> {
         let mut resources =
             create_split_resources(&mut self.string_offsets, input_sections, reuse_pool, args);
 
+        #[cfg(feature = "verif_hooks")]
+        crate::verif_hooks::evlog::ev(27, resources.num_input_groups as u64, reuse_pool.capacity as u64);
         rayon::in_place_scope(|s| {
             // Spawn some number of tasks to process input section groups. As these tasks complete,
             // they'll spawn bucket processing tasks to take those inputs. As the bucket processing
@@ -443,6 +445,11 @@ impl<'data> MergedStringsSection<'data> {
             try_spawn_input_processing(&resources, s);
         });
 
+        #[cfg(feature = "verif_hooks")]
+        {
+            crate::verif_hooks::evlog::ev(28, reuse_pool.available.load(Ordering::Relaxed) as u64, resources.finished_buckets.len() as u64);
+            crate::verif_hooks::evlog::dump("sm");
+        }
         // Check if we got any errors. We only look at the first error.
         if let Some(error) = resources.errors.pop() {
             return Err(error);
@@ -569,6 +576,8 @@ fn try_spawn_input_processing<'scope>(
         };
 
         scope.spawn(|scope| {
+            #[cfg(feature = "verif_hooks")]
+            crate::verif_hooks::perturb(10);
             if let Some(input_section) = resources.unprocessed.pop()
                 && let Err(error) =
                     process_input_section_group(resources, input_section, scope, &mut reservation)
@@ -576,6 +585,8 @@ fn try_spawn_input_processing<'scope>(
                 let _ = resources.errors.push(error);
             }
 
+            #[cfg(feature = "verif_hooks")]
+            crate::verif_hooks::perturb(11);
             resources.reuse_pool.unreserve(reservation);
         });
     }
@@ -753,16 +764,30 @@ impl ReusePool {
         let r = self.string_vecs.push(reuse_vec(strings_to_merge));
         assert!(r.is_ok());
 
+        #[cfg(feature = "verif_hooks")]
+        let verif_held = crate::verif_hooks::evlog::hold();
         self.available.fetch_add(1, Ordering::Relaxed);
+        #[cfg(feature = "verif_hooks")]
+        verif_held.push_and_release(26, crate::verif_hooks::evlog::CTX.with(|c| c.get()), 0);
     }
 
     /// Attempt to reserve the specified number of Vecs. Fails if there isn't at least that many
     /// already available.
     fn try_reserve(&self, num_vecs: usize) -> Result<PoolReservation, ()> {
+        #[cfg(feature = "verif_hooks")]
+        let verif_ctx = crate::verif_hooks::evlog::CTX.with(|c| c.get());
+        #[cfg(feature = "verif_hooks")]
+        let verif_held = crate::verif_hooks::evlog::hold();
         let available = self.available.load(Ordering::Relaxed);
+        #[cfg(feature = "verif_hooks")]
+        verif_held.push_and_release(20, verif_ctx, available as u64);
         if available < num_vecs {
             return Err(());
         }
+        #[cfg(feature = "verif_hooks")]
+        crate::verif_hooks::perturb(12);
+        #[cfg(feature = "verif_hooks")]
+        let verif_held = crate::verif_hooks::evlog::hold();
 
         if self
             .available
@@ -774,8 +799,12 @@ impl ReusePool {
             )
             .is_err()
         {
+            #[cfg(feature = "verif_hooks")]
+            verif_held.push_and_release(21, verif_ctx, (available as u64) << 1);
             return Err(());
         }
+        #[cfg(feature = "verif_hooks")]
+        verif_held.push_and_release(21, verif_ctx, (available as u64) << 1 | 1);
 
         Ok(PoolReservation {
             remaining: num_vecs,
@@ -787,8 +816,12 @@ impl ReusePool {
         if reservation.remaining == 0 {
             return;
         }
+        #[cfg(feature = "verif_hooks")]
+        let verif_held = crate::verif_hooks::evlog::hold();
         self.available
             .fetch_add(reservation.remaining, Ordering::Relaxed);
+        #[cfg(feature = "verif_hooks")]
+        verif_held.push_and_release(23, reservation.remaining as u64, 0);
     }
 }
 
@@ -816,6 +849,8 @@ fn process_input_section_group<'data, 'offsets, 'scope>(
     reservation: &mut PoolReservation,
 ) -> Result {
     verbose_timing_phase!("Split and hash");
+    #[cfg(feature = "verif_hooks")]
+    crate::verif_hooks::evlog::ev(22, group_in.index as u64 + 1, 0);
 
     let mut buckets: [Vec<StringToMerge<'data, 'offsets>>; MERGE_STRING_BUCKETS] = [();
         MERGE_STRING_BUCKETS]
@@ -834,8 +869,18 @@ fn process_input_section_group<'data, 'offsets, 'scope>(
     resources.finished_shards[group_in.index].store(Some(group_in.offsets_shard));
 
     for (i, bucket_out) in buckets.iter_mut().enumerate() {
+        #[cfg(feature = "verif_hooks")]
+        crate::verif_hooks::perturb(13);
+        #[cfg(feature = "verif_hooks")]
+        let verif_held = crate::verif_hooks::evlog::hold();
         let prev_slot =
             resources.swap_strings_slot(group_in.index, i, StringsSlot::Strings(take(bucket_out)));
+        #[cfg(feature = "verif_hooks")]
+        verif_held.push_and_release(
+            24,
+            group_in.index as u64,
+            (i as u64) << 1 | u64::from(matches!(prev_slot, StringsSlot::WaitingForStrings(_))),
+        );
         if let StringsSlot::WaitingForStrings(bucket) = prev_slot {
             scope.spawn(|scope| {
                 if let Err(error) = work_with_bucket(resources, bucket, scope) {
@@ -859,6 +904,8 @@ fn work_with_bucket<'data, 'scope>(
     let mut overflowed_offsets = resources.overflowed_offsets.get_or_default().borrow_mut();
 
     while bucket.next_input_group_index < resources.num_input_groups {
+        #[cfg(feature = "verif_hooks")]
+        crate::verif_hooks::perturb(15);
         let mut strings_to_merge = {
             let group_index = bucket.next_input_group_index;
 
@@ -869,20 +916,30 @@ fn work_with_bucket<'data, 'scope>(
 
             let slot = replace(&mut *lock, StringsSlot::Empty);
             let StringsSlot::Strings(strings) = slot else {
+                #[cfg(feature = "verif_hooks")]
+                crate::verif_hooks::evlog::ev(25, bucket.index as u64, (group_index as u64) << 1);
                 *lock = StringsSlot::WaitingForStrings(bucket);
                 return Ok(());
             };
+            #[cfg(feature = "verif_hooks")]
+            crate::verif_hooks::evlog::ev(25, bucket.index as u64, (group_index as u64) << 1 | 1);
 
             strings
         };
 
         bucket.process_split_output(&mut strings_to_merge, &mut overflowed_offsets)?;
 
+        #[cfg(feature = "verif_hooks")]
+        crate::verif_hooks::evlog::CTX.with(|c| c.set(bucket.index as u64 + 1));
+        #[cfg(feature = "verif_hooks")]
+        crate::verif_hooks::perturb(14);
         resources
             .reuse_pool
             .return_strings_to_merge(strings_to_merge);
 
         try_spawn_input_processing(resources, scope);
+        #[cfg(feature = "verif_hooks")]
+        crate::verif_hooks::evlog::CTX.with(|c| c.set(0));
 
         // Advance to the next input for this bucket.
         bucket.next_input_group_index += 1;
